@@ -141,7 +141,8 @@ Cached(c, cp) == CachedL(c, Log4(c), Log12(c), cp)
 Cand4 == << [s |-> 0,     e |-> 1,     delta |-> 20,    off |-> 0],
             [s |-> 65,    e |-> 67,    delta |-> 65472, off |-> 0],      \* -64: gids 1..3
             [s |-> 69,    e |-> 69,    delta |-> 0,     off |-> 1],      \* gia[1]
-            [s |-> 255,   e |-> 257,   delta |-> 0,     off |-> 2],      \* gia[2..4], crosses a block, has a zero entry
+            [s |-> 255,   e |-> 257,   delta |-> 5,     off |-> 2],      \* gia[2..4], crosses a block, has a zero entry (which
+                                                                           \* stays 0: the delta is added to non-zero entries only)
             [s |-> 512,   e |-> 515,   delta |-> 3,     off |-> 5],      \* gia[5..8]: runs off the end of gia
             [s |-> 65533, e |-> 65534, delta |-> 4,     off |-> 0] >>    \* wraps: (65533 + 4) mod 65536 = 1
 Gia == <<7, 9, 0, 10, 11, 12>>                                           \* entry 6 is the last uint16 of the subtable
